@@ -229,6 +229,14 @@ def _is_literal(v) -> bool:
         return True
     if isinstance(v, (ast.Tuple, ast.List)) and v.elts and all(_is_literal(e) for e in v.elts):
         return True
+    # slice(-32, None) used as a subscript; frozenset({...}) / frozenset((…)) of literals used in membership tests
+    if isinstance(v, ast.Call) and isinstance(v.func, ast.Name) and v.func.id == "slice" and not v.keywords and 1 <= len(v.args) <= 3 and all(_is_literal(a) for a in v.args):
+        return True
+    if isinstance(v, ast.Call) and isinstance(v.func, ast.Name) and v.func.id in ("frozenset", "set", "tuple") and not v.keywords and len(v.args) == 1 \
+            and isinstance(v.args[0], (ast.Set, ast.Tuple, ast.List)) and v.args[0].elts and all(isinstance(e, ast.Constant) for e in v.args[0].elts):
+        return True
+    if isinstance(v, ast.Set) and v.elts and all(isinstance(e, ast.Constant) for e in v.elts):
+        return True
     # a member of an enumeration / constants class: `EventKind.DELETE`
     if isinstance(v, ast.Attribute) and isinstance(v.value, ast.Name) and v.value.id[:1].isupper() and not v.value.id.isupper() and v.attr.isupper():
         return True
@@ -1652,7 +1660,13 @@ class ProgramNormalizer:
                     init = ast.Assign(targets=[ast.Name(id=acc, ctx=ast.Store())], value=ast.List(elts=[], ctx=ast.Load()), lineno=s.lineno)
                     body = [ast.Expr(value=ast.Call(func=ast.Attribute(value=ast.Name(id=acc, ctx=ast.Load()), attr="append", ctx=ast.Load()), args=[Tl], keywords=[]))]
                     r = _fuse_generator(got[0], g, got[1], T, body, ctx["taken"])
-                    c.args[0] = ast.Name(id=acc, ctx=ast.Load())
+                    if fname == "list" and len(c.args) == 1 and not c.keywords:
+                        # list(<fresh list>) is that list
+                        new_s = _replace_node(s, c, ast.copy_location(ast.Name(id=acc, ctx=ast.Load()), c))
+                        if new_s is not s:
+                            s = new_s
+                    else:
+                        c.args[0] = ast.Name(id=acc, ctx=ast.Load())
                     count[0] += 1
                     out = [ast.copy_location(init, s)] + r + [s]
                     for o in out:
@@ -2573,10 +2587,110 @@ class ProgramNormalizer:
         def simple(e):
             return isinstance(e, (ast.Name, ast.Constant)) or (isinstance(e, ast.Attribute) and simple(e.value))
 
+        in_class = [False]
+
+        def exit_stack(st):
+            """with ExitStack() as S: [x = S.enter_context(CM) | if c: x = S.enter…(A) else: x = S.enter…(B)]; TAIL  ->  with CM as x: TAIL  (nested, in order)"""
+            if not (isinstance(st, (ast.With, ast.AsyncWith)) and len(st.items) == 1 and isinstance(st.items[0].context_expr, ast.Call)
+                    and dotted_name(st.items[0].context_expr.func).split(".")[-1] in ("ExitStack", "AsyncExitStack") and not st.items[0].context_expr.args
+                    and isinstance(st.items[0].optional_vars, ast.Name)):
+                return None
+            S = st.items[0].optional_vars.id
+
+            def enter_of(x):
+                """(target or None, cm expr, is_async) for `t = [await] S.enter_[async_]context(CM)` / the bare expression statement"""
+                v = x.value if isinstance(x, (ast.Assign, ast.Expr)) else None
+                if v is None or (isinstance(x, ast.Assign) and (len(x.targets) != 1 or not isinstance(x.targets[0], ast.Name))):
+                    return None
+                aw = isinstance(v, ast.Await)
+                c = v.value if aw else v
+                if isinstance(c, ast.Call) and isinstance(c.func, ast.Attribute) and isinstance(c.func.value, ast.Name) and c.func.value.id == S and len(c.args) == 1 and not c.keywords:
+                    if c.func.attr == "enter_async_context" and aw:
+                        return (x.targets[0] if isinstance(x, ast.Assign) else None, c.args[0], True)
+                    if c.func.attr == "enter_context" and not aw:
+                        return (x.targets[0] if isinstance(x, ast.Assign) else None, c.args[0], False)
+                return None
+
+            def mentions_stack(nodes):
+                return any(isinstance(y, ast.Name) and y.id == S for x in nodes for y in ast.walk(x))
+
+            def build(body):
+                if not body:
+                    return [ast.Pass()]
+                head, tail = body[0], body[1:]
+                e = enter_of(head)
+                if e is not None:
+                    tgt, cm, is_async = e
+                    inner = build(tail)
+                    w = (ast.AsyncWith if is_async else ast.With)(items=[ast.withitem(context_expr=cm, optional_vars=(ast.Name(id=tgt.id, ctx=ast.Store()) if tgt is not None else None))], body=inner, type_comment=None)
+                    return [w]
+                if isinstance(head, ast.If) and head.body and head.orelse and len(head.body) == 1 and len(head.orelse) == 1 and enter_of(head.body[0]) and enter_of(head.orelse[0]) \
+                        and not mentions_stack([head.test]):
+                    a = build([head.body[0]] + [copy.deepcopy(x) for x in tail])
+                    b = build([head.orelse[0]] + tail)
+                    return [ast.If(test=head.test, body=a, orelse=b)]
+                if mentions_stack(body):
+                    raise ValueError("stack used otherwise")
+                return body
+
+            try:
+                new = build(list(st.body))
+            except ValueError:
+                return None
+            if new == st.body or (len(new) == len(st.body) and all(a is b for a, b in zip(new, st.body))):
+                return None
+            for x in new:
+                ast.copy_location(x, st)
+                ast.fix_missing_locations(x)
+            return new
+
+        def update_genexp(st):
+            """X.update(<genexp>) / X.extend(<genexp | listcomp>) as a statement  ->  the loop that adds element by element"""
+            if not (isinstance(st, ast.Expr) and isinstance(st.value, ast.Call) and isinstance(st.value.func, ast.Attribute) and st.value.func.attr in ("update", "extend")
+                    and len(st.value.args) == 1 and not st.value.keywords and isinstance(st.value.args[0], (ast.GeneratorExp, ast.ListComp)) and simple(st.value.func.value)):
+                return None
+            g = st.value.args[0]
+            if any(gen.is_async for gen in g.generators):
+                return None
+            add = "add" if st.value.func.attr == "update" else "append"
+            if st.value.func.attr == "update" and isinstance(g, ast.ListComp):
+                pass
+            body = [ast.Expr(value=ast.Call(func=ast.Attribute(value=copy.deepcopy(st.value.func.value), attr=add, ctx=ast.Load()), args=[g.elt], keywords=[]))]
+            for gen in reversed(g.generators):
+                for cond in reversed(gen.ifs):
+                    body = [ast.If(test=cond, body=body, orelse=[])]
+                body = [ast.For(target=gen.target, iter=gen.iter, body=body, orelse=[], type_comment=None)]
+            for x in body:
+                ast.copy_location(x, st)
+                ast.fix_missing_locations(x)
+            return body
+
         def rewrite_list(stmts):
             nonlocal n
             out = []
+            pending = list(stmts)
+            stmts = []
+            for st in pending:
+                r = exit_stack(st)
+                if r is None:
+                    r = update_genexp(st)
+                if r is not None:
+                    n += 1
+                    for x in r:
+                        visit(x)
+                    stmts.extend(r)
+                else:
+                    stmts.append(st)
             for st in stmts:
+                # annotations are not behaviour (outside class bodies, where they declare dataclass / model / NamedTuple fields)
+                if isinstance(st, ast.AnnAssign) and not in_class[0] and isinstance(st.target, (ast.Name, ast.Attribute, ast.Subscript)):
+                    if st.value is None:
+                        if isinstance(st.target, ast.Name):
+                            n += 1
+                            continue
+                    else:
+                        st = ast.copy_location(ast.Assign(targets=[st.target], value=st.value, type_comment=None), st)
+                        n += 1
                 # walrus first
                 host = None
                 if isinstance(st, (ast.If,)):
@@ -2642,7 +2756,7 @@ class ProgramNormalizer:
                 return None
             subj = st.subject
             pre = []
-            if not simple(subj):
+            if not (simple(subj) or (isinstance(subj, ast.Subscript) and simple(subj.value) and isinstance(subj.slice, ast.Constant))):
                 return None
 
             def test_of(p):
@@ -2665,25 +2779,54 @@ class ProgramNormalizer:
                 if t is None:
                     return None
                 body = list(case.body)
+                bind = None
                 if t is True and isinstance(case.pattern, ast.MatchAs) and case.pattern.name:
-                    if case.guard is not None:
-                        return None
-                    body = [ast.Assign(targets=[ast.Name(id=case.pattern.name, ctx=ast.Store())], value=copy.deepcopy(subj), type_comment=None)] + body
+                    bind = ast.Assign(targets=[ast.Name(id=case.pattern.name, ctx=ast.Store())], value=copy.deepcopy(subj), type_comment=None)
+                    if case.guard is None:
+                        body = [bind] + body
+                        bind = None
                 if case.guard is not None:
                     t = case.guard if t is True else ast.BoolOp(op=ast.And(), values=[t, case.guard])
-                chain.append((t, body))
+                chain.append((t, body, bind))
             node = None
-            for t, body in reversed(chain):
+            for t, body, bind in reversed(chain):
                 if t is True:
                     node = body
                 else:
                     new = ast.If(test=t, body=body, orelse=(node if isinstance(node, list) else ([node] if node is not None else [])))
-                    node = new
+                    # `case name if guard:` binds the capture before the guard is evaluated (and keeps it bound when the guard fails)
+                    node = [bind, new] if bind is not None else new
             if isinstance(node, list):
                 return pre + node
             return pre + ([node] if node is not None else [])
 
         def visit(node):
+            nonlocal n
+            if isinstance(node, ast.ClassDef):
+                saved = in_class[0]
+                in_class[0] = True
+                try:
+                    for ch in node.body:
+                        if isinstance(ch, FuncT):
+                            in_class[0] = False
+                            visit(ch)
+                            in_class[0] = True
+                        elif isinstance(ch, ast.ClassDef):
+                            visit(ch)
+                finally:
+                    in_class[0] = saved
+                return
+            if isinstance(node, FuncT):
+                saved = in_class[0]
+                in_class[0] = False
+                try:
+                    _visit_inner(node)
+                finally:
+                    in_class[0] = saved
+                return
+            _visit_inner(node)
+
+        def _visit_inner(node):
             nonlocal n
             for field in ("body", "orelse", "finalbody"):
                 v = getattr(node, field, None)
@@ -2734,6 +2877,182 @@ class ProgramNormalizer:
                 nonlocal n
                 self.generic_visit(node)
                 f = node.func
+                if not (isinstance(f, ast.Attribute) and f.attr == "format" and isinstance(f.value, ast.Constant) and isinstance(f.value.value, str)):
+                    return node
+                js = format_to_joined(f.value.value, node.args, node.keywords)
+                if js is None:
+                    return node
+                n += 1
+                return ast.copy_location(js, node)
+
+            def visit_Call(self, node):  # noqa: F811  (extended below)
+                return self._call(node)
+
+            @staticmethod
+            def _bytes_template(parts):
+                """parts (Constant bytes | other expr) -> b"…%s…" % (exprs)"""
+                tmpl, args = b"", []
+                for p in parts:
+                    if isinstance(p, ast.Constant) and isinstance(p.value, bytes):
+                        tmpl += p.value.replace(b"%", b"%%")
+                    else:
+                        tmpl += b"%s"
+                        args.append(p)
+                if not args:
+                    return ast.Constant(value=tmpl.replace(b"%%", b"%"))
+                right = args[0] if len(args) == 1 and not isinstance(args[0], ast.Tuple) else ast.Tuple(elts=args, ctx=ast.Load())
+                return ast.BinOp(left=ast.Constant(value=tmpl), op=ast.Mod(), right=right)
+
+            def visit_BinOp(self, node):
+                nonlocal n
+                self.generic_visit(node)
+                # a + b"\x00" + c  (bytes concatenation with at least one literal piece)  ->  b"%s\x00%s" % (a, c)
+                if isinstance(node.op, ast.Add):
+                    flat = []
+
+                    def fl(e):
+                        if isinstance(e, ast.BinOp) and isinstance(e.op, ast.Add):
+                            fl(e.left)
+                            fl(e.right)
+                        else:
+                            flat.append(e)
+
+                    fl(node)
+                    if len(flat) >= 2 and any(isinstance(p, ast.Constant) and isinstance(p.value, bytes) for p in flat) \
+                            and not any(isinstance(p, ast.Constant) and not isinstance(p.value, bytes) for p in flat) \
+                            and not any(isinstance(p, ast.BinOp) and isinstance(p.op, ast.Mod) for p in flat):
+                        n += 1
+                        return ast.copy_location(self._bytes_template(flat), node)
+                return node
+
+            def visit_Subscript(self, node):
+                nonlocal n
+                self.generic_visit(node)
+                sl = node.slice
+                if isinstance(sl, ast.Call) and isinstance(sl.func, ast.Name) and sl.func.id == "slice" and not sl.keywords and all(isinstance(a, (ast.Constant, ast.UnaryOp)) for a in sl.args):
+                    a = list(sl.args)
+                    none = lambda x: None if (isinstance(x, ast.Constant) and x.value is None) else x  # noqa: E731
+                    if len(a) == 1:
+                        lo, hi, stp = None, none(a[0]), None
+                    else:
+                        lo, hi, stp = none(a[0]), none(a[1]), (none(a[2]) if len(a) == 3 else None)
+                    node.slice = ast.copy_location(ast.Slice(lower=lo, upper=hi, step=stp), sl)
+                    n += 1
+                return node
+
+            def visit_Compare(self, node):
+                nonlocal n
+                self.generic_visit(node)
+                # 'id' in frozenset({'id', 'pubkey'})  with constants on both sides
+                if len(node.ops) == 1 and isinstance(node.ops[0], (ast.In, ast.NotIn)) and isinstance(node.left, ast.Constant):
+                    c = node.comparators[0]
+                    if isinstance(c, ast.Call) and isinstance(c.func, ast.Name) and c.func.id in ("frozenset", "set", "tuple") and len(c.args) == 1:
+                        c = c.args[0]
+                    if isinstance(c, (ast.Set, ast.Tuple, ast.List)) and all(isinstance(e, ast.Constant) for e in c.elts):
+                        val = node.left.value in [e.value for e in c.elts]
+                        n += 1
+                        return ast.copy_location(ast.Constant(value=val if isinstance(node.ops[0], ast.In) else not val), node)
+                return node
+
+            def visit_IfExp(self, node):
+                nonlocal n
+                self.generic_visit(node)
+                if isinstance(node.test, ast.Constant) and isinstance(node.test.value, bool):
+                    n += 1
+                    return node.body if node.test.value else node.orelse
+                return node
+
+            def visit_DictComp(self, node):
+                nonlocal n
+                # {K: V for a, b in TABLE.items()} over a module-level constant dict: the dict display with a, b substituted
+                if len(node.generators) == 1 and not node.generators[0].ifs and not node.generators[0].is_async:
+                    g = node.generators[0]
+                    it = g.iter
+                    if isinstance(it, ast.Call) and isinstance(it.func, ast.Attribute) and it.func.attr == "items" and isinstance(it.func.value, ast.Name) and not it.args \
+                            and isinstance(g.target, ast.Tuple) and len(g.target.elts) == 2 and all(isinstance(e, ast.Name) for e in g.target.elts):
+                        table = const_dicts.get(cur_mod[0], {}).get(it.func.value.id)
+                        if table is not None:
+                            kn, vn = g.target.elts[0].id, g.target.elts[1].id
+                            keys, vals = [], []
+                            for k, v in zip(table.keys, table.values):
+                                def sub(e):
+                                    e = copy.deepcopy(e)
+                                    class S(ast.NodeTransformer):
+                                        def visit_Name(self_, nd):
+                                            if isinstance(nd.ctx, ast.Load) and nd.id == kn:
+                                                return ast.copy_location(copy.deepcopy(k), nd)
+                                            if isinstance(nd.ctx, ast.Load) and nd.id == vn:
+                                                return ast.copy_location(copy.deepcopy(v), nd)
+                                            return nd
+                                    return S().visit(e)
+                                keys.append(sub(node.key))
+                                vals.append(sub(node.value))
+                            n += 1
+                            new = ast.copy_location(ast.Dict(keys=keys, values=vals), node)
+                            ast.fix_missing_locations(new)
+                            return self.visit(new)
+                self.generic_visit(node)
+                return node
+
+            def _call(self, node):
+                nonlocal n
+                self.generic_visit(node)
+                f = node.func
+                # b"\x00".join((a, b, c)) over a literal tuple/list of pieces  ->  b"%s\x00%s\x00%s" % (a, b, c)
+                if isinstance(f, ast.Attribute) and f.attr == "join" and isinstance(f.value, ast.Constant) and isinstance(f.value.value, bytes) and len(node.args) == 1 and not node.keywords \
+                        and isinstance(node.args[0], (ast.Tuple, ast.List)) and node.args[0].elts and not any(isinstance(e, ast.Starred) for e in node.args[0].elts):
+                    parts = []
+                    for i, e in enumerate(node.args[0].elts):
+                        if i and f.value.value:
+                            parts.append(ast.Constant(value=f.value.value))
+                        parts.append(e)
+                    n += 1
+                    return ast.copy_location(self._bytes_template(parts), node)
+                # F(**{"a": x, "b": y})  is  F(a=x, b=y)
+                for kw in list(node.keywords):
+                    if kw.arg is None and isinstance(kw.value, ast.Dict) and kw.value.keys and all(isinstance(k, ast.Constant) and isinstance(k.value, str) and k.value.isidentifier() for k in kw.value.keys):
+                        i = node.keywords.index(kw)
+                        node.keywords[i:i + 1] = [ast.keyword(arg=k.value, value=v) for k, v in zip(kw.value.keys, kw.value.values)]
+                        n += 1
+                # TD(k=v, …) for a TypedDict class TD builds the plain dict {"k": v, …}
+                if isinstance(f, ast.Name) and f.id in typed_dicts.get(cur_mod[0], ()) and not node.args and node.keywords and all(k.arg for k in node.keywords):
+                    n += 1
+                    return ast.copy_location(ast.Dict(keys=[ast.Constant(value=k.arg) for k in node.keywords], values=[k.value for k in node.keywords]), node)
+                # list(<generator expression>) is the list comprehension, set(<genexp>) the set comprehension
+                if isinstance(f, ast.Name) and f.id in ("list", "set") and len(node.args) == 1 and not node.keywords and isinstance(node.args[0], ast.GeneratorExp):
+                    g = node.args[0]
+                    n += 1
+                    cls_ = ast.ListComp if f.id == "list" else ast.SetComp
+                    return ast.copy_location(cls_(elt=g.elt, generators=g.generators), node)
+                # run_in_executor(ex, functools.partial(f, a, b), c)  calls  f(a, b, c)
+                if isinstance(f, ast.Attribute) and f.attr in ("run_in_executor",) and len(node.args) >= 2 and isinstance(node.args[1], ast.Call) \
+                        and dotted_name(node.args[1].func) in ("functools.partial", "partial") and node.args[1].args and not node.args[1].keywords \
+                        and not any(isinstance(a, ast.Starred) for a in node.args[1].args):
+                    p = node.args[1]
+                    node.args = [node.args[0], p.args[0]] + list(p.args[1:]) + list(node.args[2:])
+                    n += 1
+                    return node
+                if dotted_name(f) in ("asyncio.to_thread", "to_thread") and node.args and isinstance(node.args[0], ast.Call) and dotted_name(node.args[0].func) in ("functools.partial", "partial") \
+                        and node.args[0].args and not node.args[0].keywords and not node.keywords:
+                    p = node.args[0]
+                    node.args = [p.args[0]] + list(p.args[1:]) + list(node.args[1:])
+                    n += 1
+                    return node
+                # "".join([piece, piece, …]) over a literal list of string pieces is their concatenation
+                if isinstance(f, ast.Attribute) and f.attr == "join" and isinstance(f.value, ast.Constant) and f.value.value == "" and len(node.args) == 1 and not node.keywords \
+                        and isinstance(node.args[0], (ast.List, ast.Tuple)) and node.args[0].elts \
+                        and all(isinstance(e, ast.JoinedStr) or (isinstance(e, ast.Constant) and isinstance(e.value, str)) for e in node.args[0].elts):
+                    vals = []
+                    for e in node.args[0].elts:
+                        vals.extend(e.values if isinstance(e, ast.JoinedStr) else [e])
+                    merged = []
+                    for v in vals:
+                        if merged and isinstance(v, ast.Constant) and isinstance(merged[-1], ast.Constant):
+                            merged[-1] = ast.Constant(value=merged[-1].value + v.value)
+                        else:
+                            merged.append(v)
+                    n += 1
+                    return ast.copy_location(ast.JoinedStr(values=merged), node)
                 if not (isinstance(f, ast.Attribute) and f.attr == "format" and isinstance(f.value, ast.Constant) and isinstance(f.value.value, str)):
                     return node
                 js = format_to_joined(f.value.value, node.args, node.keywords)
@@ -2793,12 +3112,164 @@ class ProgramNormalizer:
                             n += 1
                             break
 
+        # names that denote TypedDict classes, per module (own definitions and by-name imports)
+        typed_dicts = {}
+        cur_mod = [None]
+        own_td = {}
+        for mod, tree in self.trees.items():
+            own_td[mod] = {c.name for c in tree.body if isinstance(c, ast.ClassDef) and any(dotted_name(b).split(".")[-1] == "TypedDict" for b in c.bases)}
+        for mod in self.trees:
+            names = set(own_td[mod])
+            for local, tgt in self.imports.get(mod, {}).items():
+                m2, _, sym = tgt.rpartition(".")
+                if sym in own_td.get(m2, ()):
+                    names.add(local)
+            typed_dicts[mod] = names
+
+        const_dicts = {}
+        for mod, tree in self.trees.items():
+            d = {}
+            for st in tree.body:
+                tgt = st.targets[0] if isinstance(st, ast.Assign) and len(st.targets) == 1 else (st.target if isinstance(st, ast.AnnAssign) and st.value is not None else None)
+                val = st.value if isinstance(st, (ast.Assign, ast.AnnAssign)) else None
+                if isinstance(tgt, ast.Name) and isinstance(val, ast.Dict) and val.keys and all(isinstance(k, ast.Constant) for k in val.keys) and all(_is_literal(v) for v in val.values):
+                    d[tgt.id] = val
+            # not mutated / re-bound anywhere in the module
+            for x in ast.walk(tree):
+                if isinstance(x, ast.Name) and isinstance(x.ctx, ast.Store) and x.id in d and sum(1 for y in ast.walk(tree) if isinstance(y, ast.Name) and y.id == x.id and isinstance(y.ctx, ast.Store)) > 1:
+                    d.pop(x.id, None)
+                if isinstance(x, ast.Subscript) and isinstance(x.ctx, (ast.Store, ast.Del)) and isinstance(x.value, ast.Name):
+                    d.pop(x.value.id, None)
+            const_dicts[mod] = d
+
+        def bound_aliases(tree):
+            """`a = obj.meth` bound once in a function, obj never re-bound after it, `a` never re-bound: every use of `a` is `obj.meth`"""
+            nonlocal n
+            for fn in [f for f in ast.walk(tree) if isinstance(f, FuncT)]:
+                stores = {}
+                for x in _own_walk(fn):
+                    if isinstance(x, ast.Name) and isinstance(x.ctx, ast.Store):
+                        stores.setdefault(x.id, []).append(x)
+                    elif isinstance(x, ast.arg):
+                        stores.setdefault(x.arg, []).append(x)
+                for a in fn.args.args + fn.args.kwonlyargs + fn.args.posonlyargs:
+                    stores.setdefault(a.arg, []).append(a)
+                nested_stores = {x.id for f2 in _own_walk(fn) if isinstance(f2, FuncT + (ast.Lambda,)) for x in ast.walk(f2) if isinstance(x, ast.Name) and isinstance(x.ctx, ast.Store)}
+                nested_nonlocal = {nm for f2 in ast.walk(fn) if isinstance(f2, (ast.Nonlocal, ast.Global)) for nm in f2.names}
+                for st in [x for x in _own_walk(fn) if isinstance(x, ast.Assign)]:
+                    if not (len(st.targets) == 1 and isinstance(st.targets[0], ast.Name) and isinstance(st.value, ast.Attribute) and simple(st.value.value) and not isinstance(st.value.value, ast.Constant)):
+                        continue
+                    a = st.targets[0].id
+                    if len(stores.get(a, [])) != 1 or a in nested_stores or a in nested_nonlocal:
+                        continue
+                    root = st.value.value
+                    while isinstance(root, ast.Attribute):
+                        root = root.value
+                    base = root.id
+                    if base in nested_nonlocal:
+                        continue
+                    # the object expression must denote the same object at every use: its root name is not re-bound after the alias is taken
+                    later = [x for x in stores.get(base, []) if getattr(x, "lineno", 0) > st.lineno]
+                    if later:
+                        continue
+                    if isinstance(st.value.value, ast.Attribute) and base != "self":
+                        continue
+                    uses = [x for x in ast.walk(fn) if isinstance(x, ast.Name) and x.id == a and isinstance(x.ctx, ast.Load)]
+                    if not uses or any(getattr(u, "lineno", 0) < st.lineno for u in uses):
+                        continue
+                    # only when every use is a call `a(…)`: then `a` is a bound method (or another callable attribute) looked up once instead of per call
+                    if not all(isinstance(_parent_in(fn, u), ast.Call) and _parent_in(fn, u).func is u for u in uses):
+                        continue
+                    for u in uses:
+                        _replace_node(fn, u, ast.copy_location(copy.deepcopy(st.value), u))
+                    par = _parent_in(fn, st)
+                    for field in ("body", "orelse", "finalbody"):
+                        lst = getattr(par, field, None)
+                        if isinstance(lst, list) and st in lst:
+                            lst.remove(st)
+                            if not lst:
+                                lst.append(ast.copy_location(ast.Pass(), st))
+                    n += 1
+
+        def operator_callers(tree):
+            """G = operator.methodcaller("m", a) / itemgetter(k) / attrgetter("a") bound once (module level or in a function);  G(x) -> x.m(a) / x[k] / x.a"""
+            nonlocal n
+            scopes = [tree] + [f for f in ast.walk(tree) if isinstance(f, FuncT)]
+            for sc in scopes:
+                body = sc.body
+                table = {}
+                for st in body:
+                    if isinstance(st, ast.Assign) and len(st.targets) == 1 and isinstance(st.targets[0], ast.Name) and isinstance(st.value, ast.Call) and not st.value.keywords:
+                        kind = dotted_name(st.value.func).split(".")[-1]
+                        a = st.value.args
+                        if kind == "methodcaller" and a and isinstance(a[0], ast.Constant) and isinstance(a[0].value, str) and all(isinstance(x, ast.Constant) for x in a[1:]):
+                            table[st.targets[0].id] = ("m", a[0].value, a[1:])
+                        elif kind == "itemgetter" and len(a) == 1 and isinstance(a[0], ast.Constant):
+                            table[st.targets[0].id] = ("i", a[0], None)
+                        elif kind == "attrgetter" and len(a) == 1 and isinstance(a[0], ast.Constant) and isinstance(a[0].value, str) and a[0].value.isidentifier():
+                            table[st.targets[0].id] = ("a", a[0].value, None)
+                if not table:
+                    continue
+                stores = {}
+                for x in ast.walk(tree if sc is tree else sc):
+                    if isinstance(x, ast.Name) and isinstance(x.ctx, ast.Store) and x.id in table:
+                        stores[x.id] = stores.get(x.id, 0) + 1
+                table = {k: v for k, v in table.items() if stores.get(k) == 1}
+                if not table:
+                    continue
+
+                class G(ast.NodeTransformer):
+                    def visit_Call(self, node):
+                        nonlocal n
+                        self.generic_visit(node)
+                        if isinstance(node.func, ast.Name) and node.func.id in table and len(node.args) == 1 and not node.keywords and not isinstance(node.args[0], ast.Starred):
+                            kind, what, extra = table[node.func.id]
+                            x = node.args[0]
+                            n += 1
+                            if kind == "m":
+                                return ast.copy_location(ast.Call(func=ast.Attribute(value=x, attr=what, ctx=ast.Load()), args=[copy.deepcopy(e) for e in extra], keywords=[]), node)
+                            if kind == "i":
+                                return ast.copy_location(ast.Subscript(value=x, slice=copy.deepcopy(what), ctx=ast.Load()), node)
+                            return ast.copy_location(ast.Attribute(value=x, attr=what, ctx=ast.Load()), node)
+                        return node
+
+                G().visit(sc)
+
+        def partial_aliases(tree):
+            """p = functools.partial(f, a, b) bound once in a function (arguments plain names that are never re-bound there): uses of p - also inside nested
+            functions - are that partial expression"""
+            nonlocal n
+            for fn in [f for f in ast.walk(tree) if isinstance(f, FuncT)]:
+                stores = {}
+                for x in ast.walk(fn):
+                    if isinstance(x, ast.Name) and isinstance(x.ctx, ast.Store):
+                        stores[x.id] = stores.get(x.id, 0) + 1
+                for st in [x for x in fn.body if isinstance(x, ast.Assign)]:
+                    v = st.value
+                    if not (len(st.targets) == 1 and isinstance(st.targets[0], ast.Name) and isinstance(v, ast.Call) and dotted_name(v.func) in ("functools.partial", "partial")
+                            and v.args and not v.keywords and all(isinstance(a, ast.Name) for a in v.args)):
+                        continue
+                    p = st.targets[0].id
+                    if stores.get(p) != 1 or any(stores.get(a.id, 0) > 1 for a in v.args):
+                        continue
+                    uses = [x for x in ast.walk(fn) if isinstance(x, ast.Name) and x.id == p and isinstance(x.ctx, ast.Load)]
+                    if not uses:
+                        continue
+                    for u in uses:
+                        _replace_node(fn, u, ast.copy_location(copy.deepcopy(v), u))
+                    fn.body.remove(st)
+                    n += 1
+
         for mod, tree in self.trees.items():
             if focus is not None and mod not in focus:
                 continue
             before = n
+            cur_mod[0] = mod
+            partial_aliases(tree)
+            operator_callers(tree)
             visit(tree)
             enumerate_loops(tree)
+            bound_aliases(tree)
             Fmt().visit(tree)
             if n != before:
                 ast.fix_missing_locations(tree)
